@@ -145,6 +145,10 @@ def judge(ctx, case, cfgd, cfg, cs, inp, rng, modeled):
         "cs.read(name, bytes)": lambda: cs.read("T", bytes(body)),
         "cs.read(name, BytesIO)": lambda: cs.read("T", io.BytesIO(body)),
         "cs.read(name, memoryview)": lambda: cs.read("T", memoryview(body)),
+        # views that do not cover their underlying object: slices of bytes / bytearray, and a cast view
+        "T(memoryview-slice)": lambda: T(memoryview(b"\x11\x22\x33" + body + b"\x44")[3:-1]),
+        "T.reads(memoryview-slice)": lambda: T.reads(memoryview(bytearray(b"\x99" * 5 + body))[5:]),
+        "T.read(memoryview-cast)": lambda: T.read(memoryview(b"\x77" * 2 + body)[2:].cast("B")),
     }
     for name, fn in forms.items():
         ctx.evaluation(key0 + (name,))
@@ -204,6 +208,110 @@ def check_case(ctx, case, rng):
             judge(ctx, case, cfgd, cfg, cs, inp, rng, modeled)
 
 
+def direct_types(ctx, rng, n):
+    """Non-structure types parsed directly: scalars, enums, arrays, pointers, unions, at arbitrary offsets, through
+    BytesIO, real file objects (buffered and unbuffered) and buffers."""
+    import os
+    import tempfile
+
+    from ..gen import F, L_NULL, L_fixed, N_array, N_char, N_float, N_int, N_leb, N_struct, N_wchar
+
+    text = ("enum E : uint16 { EA, EB = 5 };\nflag FL : uint8 { F1, F2 };\nstruct S { uint8 a; uint24 b; };\n"
+            "union U { uint32 w; uint8 b[4]; };\nstruct T { uint8 x; };\n")
+    enode = {"k": "enum", "name": "E", "flag": False, "base": "uint16", "members": [["EA", 0], ["EB", 5]], "src": []}
+    fnode = {"k": "enum", "name": "FL", "flag": True, "base": "uint8", "members": [["F1", 1], ["F2", 2]], "src": []}
+    snode = N_struct([F("a", N_int("uint8")), F("b", N_int("uint24"))], name="S", decl="top")
+    unode = N_struct([F("w", N_int("uint32")), F("b", N_array(N_int("uint8"), L_fixed(4)))], name="U", union=True,
+                     decl="top")
+    kinds = [
+        ("uint32", N_int("uint32"), lambda cs: cs.uint32), ("int24", N_int("int24"), lambda cs: cs.int24),
+        ("uint128", N_int("uint128"), lambda cs: cs.uint128), ("double", N_float("double"), lambda cs: cs.double),
+        ("uleb128", N_leb("uleb128"), lambda cs: cs.uleb128), ("ileb128", N_leb("ileb128"), lambda cs: cs.ileb128),
+        ("enum", enode, lambda cs: cs.E), ("flag", fnode, lambda cs: cs.FL),
+        ("char[8]", N_array(N_char(), L_fixed(8)), lambda cs: cs.char[8]),
+        ("char[]", N_array(N_char(), L_NULL), lambda cs: cs.char[None]),
+        ("wchar[3]", N_array(N_wchar(), L_fixed(3)), lambda cs: cs.wchar[3]),
+        ("wchar[]", N_array(N_wchar(), L_NULL), lambda cs: cs.wchar[None]),
+        ("uint16[4]", N_array(N_int("uint16"), L_fixed(4)), lambda cs: cs.uint16[4]),
+        ("uint16[2][3]", N_array(N_array(N_int("uint16"), L_fixed(3)), L_fixed(2)), lambda cs: cs.uint16[3][2]),
+        ("int48[]", N_array(N_int("int48"), L_NULL), lambda cs: cs.int48[None]),
+        ("E[3]", N_array(enode, L_fixed(3)), lambda cs: cs.E[3]),
+        ("S[2]", N_array(snode, L_fixed(2)), lambda cs: cs.S[2]),
+        ("S", snode, lambda cs: cs.S), ("U", unode, lambda cs: cs.U),
+    ]
+    tmpdir = tempfile.mkdtemp(prefix="vf-c09-")
+    try:
+        for it in range(n):
+            for endian in "<>":
+                cs = lib.load(text, endian, False, rng.random() < 0.5)
+                cfg = model.Cfg(endian, False)
+                for name, node, getter in kinds:
+                    T = getter(cs)
+                    v = model.random_value(node, rng, cfg, nonzero=False)
+                    raw, _ = model.dump(node, v, cfg)
+                    want = lib.nan_clean(model.clean(model.parse(node, raw, 0, cfg)[0]))
+                    p = rng.choice([0, 1, 3, 7, 16, 33, 255, 4095, 4096, 70000])
+                    blob = bytes(rng.randrange(256) for _ in range(min(p, 64))).rjust(p, b"\x5a") + raw + bytes(
+                        rng.randrange(256) for _ in range(rng.randint(0, 9)))
+                    path = os.path.join(tmpdir, "blob.bin")
+                    with open(path, "wb") as fh:
+                        fh.write(blob)
+                    streams = {
+                        "BytesIO": lambda: io.BytesIO(blob),
+                        "buffered-file": lambda: open(path, "rb"),
+                        "unbuffered-file": lambda: open(path, "rb", buffering=0),
+                        "recording": lambda: RecordingStream(blob, 0),
+                    }
+                    for sname, mk in streams.items():
+                        ctx.evaluation(("direct", name, endian, sname, p, raw.hex()))
+                        ctx.cell(f"direct:{sname}")
+                        s = mk()
+                        try:
+                            s.seek(p)
+                            for form, call in (("T(x)", lambda: T(s)), ("T.read(x)", lambda: T.read(s)),
+                                               ("cs.read", None)):
+                                if call is None:
+                                    continue
+                                s.seek(p)
+                                obj = call()
+                                got = lib.nan_clean(lib.norm(obj, node))
+                                pos = s.tell() if not isinstance(s, RecordingStream) else s.position()
+                                if got != want or pos != p + len(raw):
+                                    ctx.violation("direct", "direct-type-parse-depends-on-offset-or-stream-kind",
+                                                  {"type": name, "endian": endian, "stream": sname, "offset": p,
+                                                   "form": form, "raw": raw.hex(), "got": repr(got), "want": repr(want),
+                                                   "tell": pos, "want_tell": p + len(raw)})
+                                    break
+                        except Exception as e:  # noqa: BLE001
+                            ctx.violation("direct", f"direct-type-parse-raises:{type(e).__name__}",
+                                          {"type": name, "endian": endian, "stream": sname, "offset": p,
+                                           "raw": raw.hex(), "error": lib.exc_sig(e)})
+                        finally:
+                            if hasattr(s, "close"):
+                                s.close()
+                    # buffers: bytes / bytearray / memoryview slice
+                    for bname, buf in (("bytes", raw + b"zz"), ("bytearray", bytearray(raw + b"zz")),
+                                       ("memoryview-slice", memoryview(blob)[p:])):
+                        ctx.evaluation(("direct-buf", name, endian, bname, raw.hex()))
+                        if name in ("char[8]",) and bname == "bytes":
+                            buf = raw + b"zz"  # not exactly the type's size: parsed, not the bytes shortcut
+                        try:
+                            got = lib.nan_clean(lib.norm(T.reads(buf), node))
+                            got2 = lib.nan_clean(lib.norm(T(buf), node))
+                            if got != want or got2 != want:
+                                ctx.violation("direct", "direct-type-buffer-parse-differs",
+                                              {"type": name, "endian": endian, "buffer": bname, "raw": raw.hex(),
+                                               "got": repr(got), "got_call": repr(got2), "want": repr(want)})
+                        except Exception as e:  # noqa: BLE001
+                            ctx.violation("direct", f"direct-type-buffer-parse-raises:{type(e).__name__}",
+                                          {"type": name, "endian": endian, "buffer": bname, "raw": raw.hex(),
+                                           "error": lib.exc_sig(e)})
+    finally:
+        import shutil
+
+        shutil.rmtree(tmpdir, ignore_errors=True)
+
+
 def char_shortcut(ctx):
     """T(b) for a structure whose only field is char[n] and len(b) == n is value construction (by design);
     it must agree with parsing on value and dump."""
@@ -224,6 +332,8 @@ def char_shortcut(ctx):
 def run(ctx):
     if ctx.shard == 0:
         char_shortcut(ctx)
+    if ctx.shard % 4 == 2:
+        direct_types(ctx, ctx.rng("direct"), 2 if not ctx.thorough else 25)
     for i in range(N_CASES[ctx.tier]):
         if ctx.out_of_time():
             break
